@@ -6,7 +6,7 @@
     Props/C01.v, C02.v, C03.v and C06.v. *)
 From VLS Require Import Base.U64 Model.Joint Proofs.EnforcementProofs Proofs.CounterpartyProofs
   Proofs.JointProofs Props.C01 Props.C02 Props.C03.
-From VLS Require Proofs.PaymentsProofs Props.C06.
+From VLS Require Proofs.PaymentsProofs Props.C06 Proofs.JointRefusedProofs.
 Require Import Lia.
 
 (** C01 on every channel of every joint history *)
@@ -86,6 +86,23 @@ Proof.
   exact (revoke_needs_payment_check warn prof W1 W2 W3 W4 nch mf mp jops ch n c).
 Qed.
 Print Assumptions J_revoke_needs_payment_check.
+
+(** C10 over joint histories: under the default filter a commitment request that the node refuses
+    - because the enforcement state machine of its channel says no, or because the node-wide payment
+    check on the ledger says no - leaves the payment bookkeeping (invoices, records, ledger, channel
+    contents) and the slot of EVERY channel (memory and store image) exactly as they were. *)
+Theorem J_C10_refused_changes_nothing :
+  forall warn prof nch mf mp (jops : list jop) (o : jop),
+    (forall t, warn t = false) -> Forall jwf jops -> jshort nch jops -> jwf o ->
+    let s := jrun warn prof nch mf mp (jinit warn prof) jops in
+    st (snd (jstep warn prof nch mf mp s o)) = Refused ->
+    jp (fst (jstep warn prof nch mf mp s o)) = jp s /\
+    forall ch, fst (jc (fst (jstep warn prof nch mf mp s o)) ch) = fst (jc s ch).
+Proof.
+  intros warn prof nch mf mp jops o Wall.
+  exact (JointRefusedProofs.joint_refused_changes_nothing warn prof Wall nch mf mp jops o).
+Qed.
+Print Assumptions J_C10_refused_changes_nothing.
 
 (** Non-vacuity: two channels, an approved payment of 100 000 sat validated on channel 0, the
     same payment signed on channel 1, then the revocation on channel 0: refused by the payment
